@@ -14,8 +14,11 @@
    precondition.  The check runs td_check (through td_validate, which only builds the
    certificate) on the model's result and on the invariants and summaries exported by the
    implementation.
-   C09_model_statement (the model's result is always accepted when max_call_contexts is not
-   bounded) is corresponded, not proved; with a bound on the calling contexts the statement is
+   The model's own result is proved sound directly, without the checker, in
+   Props/Properties_C09_model.v (C09_model_sound: any call graph, direct and mutual recursion in
+   the imprecise mode, any parameters and fuels, max_call_contexts unbounded).  C09_model_statement
+   below (acceptance of the model's result by the checker) stays corresponded only and is
+   superseded by it; with a bound on the calling contexts the statement is
    refuted on the model of the code as it is (C09_joined_contexts_refuted, known finding);
    analyze_recursive_functions = true is not mirrored (covered by the checker on the
    implementation's output and by the concrete oracle). *)
@@ -97,7 +100,8 @@ Theorem C09_joined_contexts_refuted :
 Proof. exact joined_contexts_refuted. Qed.
 
 (* the model's own result is always accepted: corresponded on every generated program (the
-   driver reports MODEL-NOT-VALIDATED otherwise), not proved *)
+   driver reports MODEL-NOT-VALIDATED otherwise), not proved; superseded by C09_model_sound
+   (Properties_C09_model.v), which proves the soundness of the result itself *)
 Definition C09_model_statement : Prop :=
   forall p exact delay desc efuel wtos rs depth init,
     let voff := prog_voff p in
